@@ -64,6 +64,8 @@ type mEvent struct {
 	Err string `json:"err"`
 }
 
+var mStragglers sync.WaitGroup
+
 type mSched struct {
 	mu      sync.Mutex
 	actors  map[int64]*mActor
@@ -303,7 +305,14 @@ func mRun(sc *mScenario) ([]mEvent, map[string]interface{}) {
 	old := runner.RunTask
 	defer func() { runner.RunTask = old; verifHook = nil }()
 	wn := 0
+	var ended int32
 	runner.RunTask = func(ctx context.Context, f func()) {
+		if atomic.LoadInt32(&ended) == 1 {
+			// a straggler of a finished scenario: not an actor of the next one
+			mStragglers.Add(1)
+			go func() { defer mStragglers.Done(); f() }()
+			return
+		}
 		wn++
 		s.Go(fmt.Sprintf("w%d", wn), f)
 	}
@@ -364,6 +373,28 @@ func mRun(sc *mScenario) ([]mEvent, map[string]interface{}) {
 	}
 	s.mu.Unlock()
 	s.ev("Quiescent", "", blocked, 0, s.stuck)
+	// every goroutine of this scenario (released by Run) ends before the next scenario starts
+	atomic.StoreInt32(&ended, 1)
+	for i := 0; i < 2000; i++ {
+		left := 0
+		s.mu.Lock()
+		for _, a := range s.list {
+			if !a.done {
+				left++
+			}
+		}
+		s.mu.Unlock()
+		if left == 0 {
+			break
+		}
+		time.Sleep(time.Millisecond)
+	}
+	wdone := make(chan struct{})
+	go func() { mStragglers.Wait(); close(wdone) }()
+	select {
+	case <-wdone:
+	case <-time.After(2 * time.Second):
+	}
 	return s.evs, map[string]interface{}{"id": sc.ID, "taken": s.taken, "steps": len(s.taken), "drift": s.drift, "stuck": s.stuck, "proj": s.proj}
 }
 
